@@ -43,6 +43,11 @@ type Prog struct {
 	byPath map[string]*packages.Package
 	ssa    *ssaState
 	NFuncs int
+
+	expanded map[*types.Func]*Fn // functions with later-added helpers expanded (inline.go)
+	rawIndex map[*types.Func]*Fn
+	// NoExpand switches the helper expansion off (used to generate the baseline)
+	NoExpand bool
 }
 
 // Fn is a resolved function or method declaration.
@@ -149,10 +154,44 @@ func (p *Prog) Func(rel, name string) *Fn {
 			if obj == nil || fd.Body == nil {
 				continue
 			}
-			return &Fn{Prog: p, Pkg: pk, Decl: fd, Obj: obj, Name: name}
+			return p.maybeExpand(&Fn{Prog: p, Pkg: pk, Decl: fd, Obj: obj, Name: name})
 		}
 	}
 	return nil
+}
+
+func (p *Prog) maybeExpand(fn *Fn) *Fn {
+	if p.NoExpand {
+		return fn
+	}
+	return p.Expanded(fn)
+}
+
+// rawFnOf finds the (unexpanded) declaration of a module function.
+func (p *Prog) rawFnOf(fo *types.Func) *Fn {
+	if p.rawIndex == nil {
+		p.rawIndex = map[*types.Func]*Fn{}
+		for _, pk := range p.Pkgs {
+			for _, f := range pk.Syntax {
+				for _, d := range f.Decls {
+					fd, ok := d.(*ast.FuncDecl)
+					if !ok || fd.Body == nil {
+						continue
+					}
+					obj, _ := pk.TypesInfo.Defs[fd.Name].(*types.Func)
+					if obj == nil {
+						continue
+					}
+					n := fd.Name.Name
+					if r := RecvName(fd); r != "" {
+						n = r + "." + n
+					}
+					p.rawIndex[obj] = &Fn{Prog: p, Pkg: pk, Decl: fd, Obj: obj, Name: n}
+				}
+			}
+		}
+	}
+	return p.rawIndex[fo]
 }
 
 // Funcs returns all function declarations with bodies in package rel.
@@ -176,7 +215,7 @@ func (p *Prog) Funcs(rel string) []*Fn {
 			if r := RecvName(fd); r != "" {
 				n = r + "." + n
 			}
-			out = append(out, &Fn{Prog: p, Pkg: pk, Decl: fd, Obj: obj, Name: n})
+			out = append(out, p.maybeExpand(&Fn{Prog: p, Pkg: pk, Decl: fd, Obj: obj, Name: n}))
 		}
 	}
 	return out
@@ -271,10 +310,10 @@ func (p *Prog) FnOf(fo *types.Func) *Fn {
 	if fo == nil || fo.Pkg() == nil {
 		return nil
 	}
-	for _, fn := range p.Funcs(fo.Pkg().Path()) {
-		if fn.Obj == fo {
-			return fn
-		}
+	fn := p.rawFnOf(fo)
+	if fn == nil {
+		return nil
 	}
-	return nil
+	cp := *fn
+	return p.maybeExpand(&cp)
 }
